@@ -30,10 +30,8 @@ def build(S, tier, seed):
                        'exhaustive': True, 'counterexamples': bad[:5]}]
     S.lemma('lemma/str.lower-y/all-code-points',
             lambda V: z3.BoolVal(not bad))
-    S.verify(purge.ParseReply())
+    purge.leaf_vcs(S)
     purge.consent_vc(S)
-    deps = [dates.ParseDeletionDate(), dates.ClockNow(), dates.OlderThan()]
-    S.install(deps, loops={dates.PARSE_LOOP: dates.parse_loop_annot()})
     purge.empty_vc(S, dry_run=True, prefix='empty-dry')
     purge.empty_vc(S, dry_run=False)
 
